@@ -1448,6 +1448,7 @@ func runC08(r *harness.Run) {
 	// load() with a reader function that itself loads, matches, sorts ...: cheap, runs first
 	reentrantFamily(r, "C08")
 	nilArgsFamily(r, "C08")
+	c08ReaderAnswers(r)
 	start := time.Now()
 	ctl := &c08Ctl{r: r, thorough: thorough}
 	if thorough {
